@@ -236,6 +236,9 @@ def compare_cli_validate(cli, model):
             diffs.append(("cli.report.printed", ir["printed"], mr["prints"]))
     if cli.get("exit") != model.get("exit"):
         diffs.append(("cli.exit", cli.get("exit"), model.get("exit")))
+    # the model of `main`'s sequencing (Bw.MainFlow: options, diff, parse, detect, run, merged report) ends with the same status
+    if isinstance(model.get("main"), dict) and cli.get("exit") is not None and model["main"].get("validate") != cli.get("exit"):
+        diffs.append(("cli.exit vs MainFlow", cli.get("exit"), model["main"].get("validate")))
     return diffs
 
 
@@ -254,4 +257,6 @@ def compare_cli_list(cli, model):
         diffs.append(("cli.list", cli["list"], model.get("ctx", {}).get("files")))
     if cli.get("exit") != 0:
         diffs.append(("cli.list.exit", cli.get("exit"), 0))
+    if isinstance(model.get("main"), dict) and model["main"].get("list") != cli.get("exit"):
+        diffs.append(("cli.list.exit vs MainFlow", cli.get("exit"), model["main"].get("list")))
     return diffs
